@@ -164,6 +164,8 @@ CHECKS = {
         "shrinktime": "60s",
         "assumptions": [
             "replica-side fault model: ONE transient error from the replica's storage on a drawn replicated apply (the replication manager is handed a wrapper of the replica engine whose n-th PutInternal/DeleteInternal call fails once); the replica must still converge within the bound",
+            "heartbeat configuration is generated: the default (10 s / 30 s) or 200 ms with a timeout of 0.7-2 s, with or without empty heartbeat messages, so that the idle periods of the trickle / idle_few / aged_burst phases exceed the timeout; huge single values (260 KiB - 1.5 MiB, at most 3 MiB per case) stay below gRPC's default 4 MiB receive limit of the replica, which the repository does not raise",
+            "a child process killed by the Go runtime (fatal error / unrecovered panic) whose crashing goroutine has a repository frame is a violation (primary-process-died:* / replica-process-died:*), any other child death is an infrastructure error",
             "aged_burst cases (1 in 7) keep a replica connected through 15-22 s of silence (15-16 s in the quick tier) before a burst of 150-400 writes; they use the default 10 s heartbeat while the heartbeat-backlog finding is open (flag idle_heartbeat_backlog)",
             "liveness is decided as bounded time: 60 s + 3 s per phase after the last write (the property's own 'tens of seconds on loopback'); measured convergence on a loaded machine is below 5 s",
             "primary and replicas run in one child process (separate engines, directories and replication managers) and talk over loopback TCP; a replica restart is Manager.Stop + Engine.Close + reopen of the same directory + new manager, not a process kill",
@@ -179,6 +181,7 @@ CHECKS = {
         "shrinktime": "150s",
         "assumptions": [
             "bounded-time statements: every primary client call returns within 10 s (measured normal: < 10 ms; up to 1.1 s while a healthy replica sits in its 1 s reconnect back-off, see notes), the faulty session leaves GetNodeInfo within 10 x the configured heartbeat timeout after the workload, healthy replicas converge within 60 s + 3 s per 100 steps",
+            "reconnect_storm: 1-4 client goroutines register and cancel streams in a tight loop while the heartbeat monitor runs every 1-5 ms (empty heartbeat messages off); a child process killed by the Go runtime whose crashing goroutine has a repository frame is a violation (primary-process-died:<first line>), not an infrastructure error; unsynchronised accesses that the runtime does not turn into a fatal error are not detected (no race-detector build: it would distort the latency bounds and multiply the wall time)",
             "faults are injected at application / TCP-proxy level on loopback: 'cut without FIN' = a user-space proxy that stops reading and forwarding while all sockets stay open; packet loss below TCP is not modelled",
             "clause 2 (dropped from the topology) is judged for replicas that are gone or silent for good (never reads, blackholed, reset, never acknowledges); a slow but live replica is observed only",
             "primary, replicas and fault injectors run in one child process; engines use a 64 MiB memtable so that no log rotation happens WHILE the replication primary runs (rotation is C14's open finding D18)",
